@@ -866,9 +866,7 @@ class NetSvcWorld(Base):
         self.hosts = [str(h) for h in self.net.hosts()]
         self.netdev = FakeNetdev()
         self.iptables = FakeIptables()
-        network_service.netdev = self.netdev
-        network_service.iptables = self.iptables
-        network_service.subproc = FakeSubproc
+        self.install()
         self.cls = type(str('Svc'), (network_service.NetworkResourceService,),
                         {'_TM_CIDR': cfg['cidr'], '__slots__': ()})
         self.svc = None
@@ -876,10 +874,15 @@ class NetSvcWorld(Base):
         self.start_service()
         call(self.svc.synchronize)
 
-    def start_service(self):
+    def install(self):
+        """Put the fakes at the module seams of network_service (a subclass
+        may wrap them, see mc/c14_flt.py)."""
         network_service.netdev = self.netdev
         network_service.iptables = self.iptables
         network_service.subproc = FakeSubproc
+
+    def start_service(self):
+        self.install()
         self.svc = self.cls(ext_device='eth0', ext_ip='10.0.0.1',
                             ext_mtu=9000, ext_speed=10000)
         self.svc.initialize(self.svc_dir)
@@ -929,9 +932,7 @@ class NetSvcWorld(Base):
         self.settle(ev, site, 'allocate', expected, outcome=out)
 
     def apply(self, ev):
-        network_service.netdev = self.netdev
-        network_service.iptables = self.iptables
-        network_service.subproc = FakeSubproc
+        self.install()
         kind = ev[0]
         if kind == 'create':
             r = ev[1]
@@ -984,7 +985,11 @@ class NetSvcWorld(Base):
             (name, d.get('ip'), 'device' in d, d.get('environment'),
              bool(d.get('stale')))
             for name, d in self.svc._devices.items()))
-        return (devs, tuple(sorted(self.netdev.bridge)))
+        kern = tuple(sorted((name, d['alias'])
+                            for name, d in self.netdev.devs.items()))
+        sets = tuple(sorted((name, tuple(sorted(ips)))
+                            for name, ips in self.iptables.sets.items()))
+        return (devs, tuple(sorted(self.netdev.bridge)), kern, sets)
 
 
 def netsvc_cfg(cidr, n):
@@ -1012,3 +1017,7 @@ class Spec(statex.Spec):
 
     def canon(self, world):
         return world.canon()
+
+    def dev_cost(self, event):
+        # 'create!' / 'delete!': one external call of the operation fails
+        return 1 if event and str(event[0]).endswith('!') else 0
